@@ -15,8 +15,9 @@ use crate::{
 
 use super::{
     elem_name::{
-        ACCESS_MODE, CACHEABLE, ENDIANNESS, POLLING_TIME, P_INVALIDATOR, P_SELECTED,
-        REPRESENTATION, SIGN, STREAMABLE, STRUCT_ENTRY, STRUCT_REG, UNIT,
+        ACCESS_MODE, CACHEABLE, ENDIANNESS, IMPOSED_ACCESS_MODE, IS_DEPRECATED, POLLING_TIME,
+        P_INVALIDATOR, P_SELECTED, REPRESENTATION, SIGN, STREAMABLE, STRUCT_ENTRY, STRUCT_REG, UNIT,
+        VISIBILITY,
     },
     xml, Parse,
 };
@@ -74,10 +75,25 @@ impl Parse for StructRegNode {
     }
 }
 
+/// The properties with a default value that a `StructEntry` declares explicitly.
+///
+/// An explicitly declared property overrides the one of the `StructReg` even if its value is
+/// the default value.
+#[derive(Debug, Clone, Copy)]
+struct Declared {
+    visibility: bool,
+    is_deprecated: bool,
+    imposed_access_mode: bool,
+    streamable: bool,
+    access_mode: bool,
+    cacheable: bool,
+}
+
 #[derive(Debug, Clone)]
 struct StructEntryNode {
     attr_base: NodeAttributeBase,
     elem_base: NodeElementBase,
+    declared: Declared,
 
     p_invalidators: Vec<NodeId>,
     access_mode: AccessMode,
@@ -99,9 +115,8 @@ macro_rules! merge_impl {
         }
     };
 
-    ($lhs:ident, $rhs:ident, $name:ident, default) => {
-        #[allow(clippy::default_trait_access)]
-        if $rhs.$name != Default::default() {
+    ($lhs:ident, $rhs:ident, $name:ident, declared $declared:expr) => {
+        if $declared {
             $lhs.$name = $rhs.$name;
         }
     };
@@ -121,15 +136,13 @@ impl StructEntryNode {
         cache_builder: &mut impl CacheStoreBuilder,
     ) -> MaskedIntRegNode {
         let attr_base = self.attr_base;
+        let declared = self.declared;
         let elem_base = &mut register_base.elem_base;
 
-        elem_base.merge(self.elem_base);
-        merge_impl!(register_base, self, streamable, default);
-        // `AccessMode::RO` is the default value of AccessMode.
-        if self.access_mode != AccessMode::RO {
-            register_base.access_mode = self.access_mode;
-        }
-        merge_impl!(register_base, self, cacheable, default);
+        elem_base.merge(self.elem_base, declared);
+        merge_impl!(register_base, self, streamable, declared declared.streamable);
+        merge_impl!(register_base, self, access_mode, declared declared.access_mode);
+        merge_impl!(register_base, self, cacheable, declared declared.cacheable);
         merge_impl!(register_base, self, polling_time);
         merge_impl!(register_base, self, p_invalidators, vec);
 
@@ -148,22 +161,24 @@ impl StructEntryNode {
 }
 
 impl NodeElementBase {
-    fn merge(&mut self, rhs: Self) {
+    fn merge(&mut self, rhs: Self, declared: Declared) {
         merge_impl!(self, rhs, tooltip);
         merge_impl!(self, rhs, description);
         merge_impl!(self, rhs, display_name);
-        merge_impl!(self, rhs, visibility, default);
+        merge_impl!(self, rhs, visibility, declared declared.visibility);
         merge_impl!(self, rhs, docu_url);
-        merge_impl!(self, rhs, is_deprecated, default);
+        merge_impl!(self, rhs, is_deprecated, declared declared.is_deprecated);
         merge_impl!(self, rhs, event_id);
         merge_impl!(self, rhs, p_is_implemented);
         merge_impl!(self, rhs, p_is_available);
         merge_impl!(self, rhs, p_is_locked);
         merge_impl!(self, rhs, p_block_polling);
-        // `AccessMode::RW` is the default value of ImposedAccessMode.
-        if rhs.imposed_access_mode != AccessMode::RW {
-            self.imposed_access_mode = rhs.imposed_access_mode;
-        }
+        merge_impl!(
+            self,
+            rhs,
+            imposed_access_mode,
+            declared declared.imposed_access_mode
+        );
 
         merge_impl!(self, rhs, p_errors, vec);
         merge_impl!(self, rhs, p_alias);
@@ -179,6 +194,15 @@ impl Parse for StructEntryNode {
         cache_builder: &mut impl CacheStoreBuilder,
     ) -> Self {
         debug_assert_eq!(node.tag_name(), STRUCT_ENTRY);
+
+        let declared = Declared {
+            visibility: node.has_child(VISIBILITY),
+            is_deprecated: node.has_child(IS_DEPRECATED),
+            imposed_access_mode: node.has_child(IMPOSED_ACCESS_MODE),
+            streamable: node.has_child(STREAMABLE),
+            access_mode: node.has_child(ACCESS_MODE),
+            cacheable: node.has_child(CACHEABLE),
+        };
 
         let attr_base = node.parse(node_builder, value_builder, cache_builder);
         let mut elem_base: NodeElementBase =
@@ -216,6 +240,7 @@ impl Parse for StructEntryNode {
         Self {
             attr_base,
             elem_base,
+            declared,
             p_invalidators,
             access_mode,
             cacheable,
